@@ -261,16 +261,22 @@ READING = {   # what the code does, from reading pkg/flexfec/flexfec_encoder.go 
     "ts-recovery": "encodeFlexFecHeader XORs header bytes 4-7 with themselves (flexFecHeader[4] ^= flexFecHeader[4] ...): TS recovery is always 0",
     "fec-header-missing-or-truncated": "encodeFlexFecHeader marshals each whole media packet into a buffer of headerSize (12/16/24) bytes; MarshalTo "
                           "fails with a short buffer for every packet longer than that and the function returns nil: the repair packet "
-                          "then consists of the repair payload only",
+                          "then consists of the repair payload only; and with a CSRC list / extension / padding the repair payload is "
+                          "shorter than the longest protected packet because only Packet.Payload is XORed",
     "r-f-bits": "the version bits of the first header byte are XORed in and never cleared: R is set when an odd number of packets is covered",
     "repair-payload": "encodeFlexFecRepairPayload XORs Packet.Payload only; RFC 8627 protects every byte after the 12-byte fixed header "
                       "(CSRC list, header extension, payload, padding)",
     "fec-csrc-names-stream": "the repair packet's RTP header carries an empty CSRC list; RFC 8627 4.2.1 puts the protected stream's SSRC there",
-    "panic": "n > k: an empty cover makes MediaPacketIterator.First() return nil (nil dereference); a cover with no index in 15..45 but "
-             "one >= 46 gets a 20-byte header and the 64-bit mask is written at [16:24] (slice bounds)",
+    "panic(nil pointer dereference)": "n > k: EncodeFec also encodes the empty covers; MediaPacketIterator.First() returns nil for them and "
+                                      "encodeFlexFecRepairPayload dereferences it",
+    "panic(slice bounds out of range)": "a cover with no index in 15..45 but one >= 46 (mask2 = 0, mask3 > 0) gets a 12+8 = 20-byte header "
+                                        "and the 64-bit mask is written at [16:24]",
     "repair-count": "EncodeFec returns numFecPackets packets, including packets for empty covers, and checks neither consecutiveness nor "
                     "the batch size",
 }
+CLAUSES20 = ["fec-ssrc-pt", "fec-seq", "fec-rtp-header", "fec-csrc-names-stream", "fec-header-missing-or-truncated", "r-f-bits",
+             "p-x-cc-m-pt-recovery", "length-recovery", "ts-recovery", "sn-base", "k-bits-header-size", "mask", "repair-payload",
+             "single-loss-recovery", "repair-count", "media-modified", "media-first-unmodified", "panic"]
 TINY = [[0, 0, 0, 0], [0, 1, 0, 4], [0, 0, 1, 4]]
 
 
@@ -343,6 +349,10 @@ def growth_run(ctx, scripts, tag, agg):
         e = events[l - 1]
         agg["batches_with_notes"] += 1
         for c, cnt in _PAIR.findall(m.group(3)):
+            if c == "panic":        # keep the kinds of crash apart
+                c = "panic(%s)" % ("nil pointer dereference" if "nil pointer" in e["panic"] else
+                                   "slice bounds out of range" if "slice bounds" in e["panic"] or "out of range" in e["panic"]
+                                   else "other")
             a = agg["clauses"].setdefault(c, {"batches": 0, "repair_packets": 0, "example": None})
             a["batches"] += 1
             a["repair_packets"] += int(cnt)
@@ -361,7 +371,7 @@ def growth(ctx, rng, singles, multi):
     notes = []
     try:
         vlib.model_check(ctx, "MC_FlexFec20.tla", "MC_FlexFec20.cfg" if ctx.quick else vlib.cfg_variant(
-            ctx, "MC_FlexFec20.cfg", {"MaxK": 5, "MaxN": 5, "MaxLen": 1, "Shapes": "{0, 1, 2, 3}", "Bases": "{0, 65534}"}),
+            ctx, "MC_FlexFec20.cfg", {"MaxK": 4, "MaxN": 4, "MaxLen": 1, "Shapes": "{0, 1, 2, 3}", "Bases": "{0, 65534}"}),
             workers=4 if ctx.quick else 12, timeout=3000, note="growth: RFC 8627 repair packet, payload part")
         if not ctx.quick:
             vlib.model_check(ctx, "MC_FlexFec20.tla", "MC_FlexFec20_mask.cfg",
@@ -398,7 +408,8 @@ def growth(ctx, rng, singles, multi):
                 "state - divergences are notes, not verdicts",
         "traces_validated": agg["traces"], "events": agg["events"], "batches": agg["batches"],
         "repair_packets_observed": agg["repairs"], "batches_with_notes": agg["batches_with_notes"],
-        "clauses_never_failing_note": "a clause that is absent from growth_notes held on every repair packet it was evaluated on",
+        "clauses_holding_wherever_evaluated": sorted(set(CLAUSES20) - {c.split("(")[0] for c in agg["clauses"]}),
+        "clauses_note": "field clauses are evaluated on repair packets long enough to hold FEC header + longest protected packet",
     }
     return notes
 
